@@ -7,10 +7,12 @@
    (5 ctx (items))           -> (0 globals loop funcs labels var_types) | (1 4)   declaration bookkeeping
    (6 ctx F A env expr)      -> (guard pure)
    (7 merged annotated n)    -> label                            annotated-return override; annotated = () | (label)
-   (8 () | (name))           -> label                            _annotation_to_type_label *)
+   (8 () | (name))           -> label                            _annotation_to_type_label
+   (9 ctx F A env rhs)       -> (0 label env' toc) | (1 4)       _infer_expr_type on a comprehension (Lang/InferComp.v);
+                                                                 toc = () | (env'') the var_types after _to_c_expr's bracket *)
 From Coq Require Import ZArith List Bool.
 From RV Require Import Base.Wire Base.Text Lang.PyAst Lang.PySem Lang.PyAstWire
-  Lang.Infer Lang.InferWire Lang.InferGuard Lang.Decl Lang.DeclWire.
+  Lang.Infer Lang.InferWire Lang.InferGuard Lang.InferComp Lang.Decl Lang.DeclWire.
 Import ListNotations.
 Open Scope Z_scope.
 
@@ -57,6 +59,16 @@ Definition run (v : wv) : wv :=
                            | Some aa => enc_ty (override_return mm (Some aa) (Z.to_nat n))
                            | None => wbad end
       | _, _ => wbad
+      end
+  | WL [WI 9; c; WL f; WL a; WL en; rx] =>
+      match dec_ictx c, dec_ftable f, dec_aliases a, dec_tenv en, dec_rhs rx with
+      | Some C, Some F, Some A, Some G, Some r =>
+          match infer_rhs_s F A C G r with
+          | Some (t, G1) => wok [enc_ty t; enc_tenv G1;
+                                 match toc_rhs_types F A C G r with Some G2 => WL [enc_tenv G2] | None => WL [] end]
+          | None => werr 4
+          end
+      | _, _, _, _, _ => wbad
       end
   | WL [WI 8; WL []] => enc_ty (annotation_label None)
   | WL [WI 8; WL [n]] => match un_text n with Some nn => enc_ty (annotation_label (Some nn)) | None => wbad end
